@@ -9,6 +9,7 @@ import (
 	"github.com/openkruise/rollouts/pkg/verifrt"
 	"github.com/openkruise/rollouts/pkg/verifrt/symclient"
 	apps "k8s.io/api/apps/v1"
+	apierrors "k8s.io/apimachinery/pkg/api/errors"
 	metav1 "k8s.io/apimachinery/pkg/apis/meta/v1"
 	"k8s.io/apimachinery/pkg/types"
 	"sigs.k8s.io/controller-runtime/pkg/client"
@@ -69,4 +70,51 @@ func VerifC06_CanaryDeleteFaults() {
 		_ = other
 	}
 	verifrt.Cover("C06.canaryDelete.done")
+}
+
+// VerifC06_BuildCanaryControllerUnderFaults: the canary Deployment is re-discovered on every reconcile by owner and
+// template. With every API call allowed to fail, "not found" (the answer that makes Initialize create a canary
+// Deployment) is given only when the release really owns no live canary Deployment: a failed List is reported as an
+// error, never as absence.
+func VerifC06_BuildCanaryControllerUnderFaults() {
+	release := &v1beta1.BatchRelease{TypeMeta: metav1.TypeMeta{APIVersion: "rollouts.kruise.io/v1beta1", Kind: "BatchRelease"},
+		ObjectMeta: metav1.ObjectMeta{Namespace: "shop", Name: "br", UID: "br-uid"}}
+	isCtrl := true
+	stable := &apps.Deployment{ObjectMeta: metav1.ObjectMeta{Namespace: "shop", Name: "orders", UID: "wl-uid"}}
+	three := int32(3)
+	stable.Spec.Replicas = &three
+	stable.Spec.Template.Labels = map[string]string{"app": "orders", "ver": "v2"}
+	cli := &symclient.Client{Faults: true, Objects: []client.Object{stable}}
+	hasCanary := verifrt.Bool("canary.exists")
+	if hasCanary {
+		d := &apps.Deployment{ObjectMeta: metav1.ObjectMeta{Namespace: "shop", Name: "orders-abc", UID: "c-uid",
+			OwnerReferences: []metav1.OwnerReference{{APIVersion: "rollouts.kruise.io/v1beta1", Kind: "BatchRelease", Name: "br", UID: "br-uid", Controller: &isCtrl}}}}
+		d.Spec.Replicas = &three
+		d.Spec.Template = *stable.Spec.Template.DeepCopy()
+		cli.Objects = append(cli.Objects, d)
+	}
+	cli.ListFn = func(list client.ObjectList, opts []client.ListOption) error {
+		if l, ok := list.(*apps.DeploymentList); ok {
+			for _, o := range cli.Objects {
+				if d, ok := o.(*apps.Deployment); ok && d.Name != "orders" {
+					l.Items = append(l.Items, *d.DeepCopy())
+				}
+			}
+		}
+		return nil
+	}
+	key := types.NamespacedName{Namespace: "shop", Name: "orders"}
+	rc := &realController{realStableController: newStable(cli, key), realCanaryController: newCanary(cli, key)}
+	_, err := rc.BuildCanaryController(release)
+	if err == nil {
+		verifrt.Assert(hasCanary && rc.canaryObject != nil && rc.canaryObject.Name == "orders-abc", "C06.buildCanary.foundOnlyWhatExists")
+		verifrt.Cover("C06.buildCanary.found")
+		return
+	}
+	if apierrors.IsNotFound(err) {
+		verifrt.Assert(!hasCanary, "C06.buildCanary.notFoundOnlyWhenReallyAbsent")
+		verifrt.Cover("C06.buildCanary.notFound")
+		return
+	}
+	verifrt.Cover("C06.buildCanary.errorReported")
 }
